@@ -68,11 +68,15 @@ def follow_cases(S):
 def build(S):
     S.under_contract(FN_FP, C18.FN_MFG, "hypnotoad.core.mesh:MeshRegion.__init__")
     S.assume("external (assumed): solve_ivp(t_eval=T).y[:,k] approximates the integral curve at T[k] within rtol/atol")
-    S.assume("NOT proved: accuracy of the integration, behaviour next to X-points; MeshRegion.__init__'s assembly contours[i][j] = perp_j[i] is checked only through the generated grids (bounded)")
+    S.assume("NOT proved: accuracy of the integration, behaviour next to X-points")
     follow_cases(S)
     with numpy_shimmed():
         S.contract("spline-wiring", C18.FN_MFG, C18.run_spline, shape="one evaluation point inside the domain")
         S.contract("dct-wiring", C18.FN_MFG, C18.run_dct_wiring, shape="one evaluation point")
+        from . import C01_init, C18_dct
+
+        C01_init.add(S)  # contours[i][j] = point of perpendicular j for psi_vals[i]
+        C18_dct.add(S)  # f_R, f_Z of the dct method are built from ddR, ddZ: derivatives of __call__ on non-square grids
 
 
 def post(S):
